@@ -8,7 +8,7 @@ SCR=/tmp/sb
 : > $SCR/all.jsonl
 for p in "$@"; do
   for w in 0 1 2 3 4 5 6 7; do
-    ( $SCR/simworker -prop $p -scen ${SCEN:-seq} -seed ${SEED:-1} -from $w -stride 8 -n $((N/8)) -v > $SCR/out.$p.$w.jsonl ) &
+    ( $SCR/simworker -prop $p -scen ${SCEN:-seq} -seed ${SEED:-1} -from $w -stride 8 -known $SCR/known.txt -n $((N/8)) -v > $SCR/out.$p.$w.jsonl ) &
   done
   wait
   cat $SCR/out.$p.*.jsonl > $SCR/out.$p.jsonl; rm $SCR/out.$p.?.jsonl
